@@ -296,7 +296,9 @@ func ReadFloat64(reader io.Reader) (val float64, err error) {
 
 // ReadExtendedForgeShort reads a Minecraft-style extended short from the specified {@code buf}.
 func ReadExtendedForgeShort(rd io.Reader) (int, error) {
-	ulow, err := ReadUint8(rd)
+	// The low part is an unsigned 16-bit short whose top bit flags a third byte
+	// (Velocity: buf.readUnsignedShort()).
+	ulow, err := ReadUint16(rd)
 	if err != nil {
 		return 0, err
 	}
